@@ -169,6 +169,10 @@ def validate (cs : Case) : String := Id.run do
   for k in List.range entries.size do
     let en := entries[k]!
     let s := en.step
+    -- C13_slots_bounded: along every run of the model 0 <= free slots <= pool size; a logged value above the pool size
+    -- (e.g. an unsigned counter that wrapped below zero) is no state of the model
+    if en.kind != "B" && en.slots > cs.pool then
+      return s!"invalid at={en.seq} reason=slot counter {en.slots} > pool size {cs.pool} (logged on a {en.kind} line of step {s}; C13_slots_bounded: 0 <= free slots <= pool size along every run)"
     -- apply a handler step (inserting the unobserved process exit it reports)
     let doHandler := fun (σ : Sys) (e : Ev) =>
       let σ1 := match e with
